@@ -33,6 +33,9 @@ THEOREMS = [
     "HedVerif.C09.defexpand_accept_iff",
     "HedVerif.C09.defexpand_order_counterexample",
     "HedVerif.C09.sort_perm",
+    "HedVerif.C09.sortG_perm_partial",
+    "HedVerif.C09.defexpand_perm_partial",
+    "HedVerif.C09.acceptString_good",
 ]
 BUDGET = {"quick": 900, "thorough": 3600}
 
@@ -770,8 +773,8 @@ def run(ctx):
         refd, _ = ref_accept(defs, env.takes_value_tag, env.bad_prop_tag)
         cells = [render(gen_annotation(rng, refd, depth=2), rng) for _ in range(rng.randint(1, 5))]
         cells = [c for c in cells if not two_de_somewhere(parse(c))]     # shrink_defs raises KeyError on those
-        if rng.random() < 0.5:
-            cells.append("Red, Blue")
+        if rng.random() < 0.5 or not cells:
+            cells.append("Red, Blue")      # (an empty Series has no string dtype: not generated)
         check_frames(ctx, env, defs, cells)
         # Def-expand groups without content make process_def_expands raise IndexError (get_first_group): outside
         # the property's statement, so only definitions with content are gathered
